@@ -34,9 +34,9 @@ theorem session_inv (ops : List Op) : Inv (run ops) := by
 
 /-- every successful edit other than a row deletion drops the stored solution -/
 theorem edit_drops_cache (s : S) (op : Op)
-    (h : op = .addCols ∨ op = .newRow ∨ (∃ f, op = .addRows f) ∨ (∃ b, op = .delCols b) ∨ op = .chgKeepFactor ∨ op = .chgMatrix) :
+    (h : op = .addCols ∨ op = .newRow ∨ (∃ f, op = .addRows f) ∨ (∃ b, op = .delCols b) ∨ op = .chgKeepFactor ∨ op = .chgMatrix ∨ (∃ k, op = .chgBound k)) :
     (step s op).cache = false ∧ (step s op).qstatus = lpModified := by
-  rcases h with h | h | ⟨f, h⟩ | ⟨b, h⟩ | h | h <;> subst h <;> simp [step, freeCache, edited]
+  rcases h with h | h | ⟨f, h⟩ | ⟨b, h⟩ | h | h | ⟨k, h⟩ <;> subst h <;> simp [step, freeCache, edited]
 
 /-- the accessors fail exactly when no solution is stored -/
 theorem accessors_need_cache (s : S) : accessorOk s = true ↔ s.cache = true := by simp [accessorOk]
